@@ -178,6 +178,57 @@ type applied struct {
 	supp           consensus.V1BlockSupplement
 	kinds          []string
 	id             types.BlockID
+	arch           []*archived
+}
+
+// archived is a consumer's own copy of an element a block updated in place (spent, resolved or revised), kept with the
+// proof the block's update reported so that the block can be undone: RevertUpdate.UpdateElementProof must turn it back
+// into a proof of the element as it was before the block.
+type archived struct {
+	kind          string
+	se            types.StateElement
+	before, after elems.Hash
+	spentAfter    bool
+}
+
+const archiveDepth = 6
+
+func archive(au consensus.ApplyUpdate) (out []*archived) {
+	for _, d := range au.SiacoinElementDiffs() {
+		if d.Spent && !d.Created {
+			e := d.SiacoinElement.Copy()
+			out = append(out, &archived{"siacoin", e.StateElement, elems.Siacoin(e), elems.Siacoin(e), true})
+		}
+	}
+	for _, d := range au.SiafundElementDiffs() {
+		if d.Spent && !d.Created {
+			e := d.SiafundElement.Copy()
+			out = append(out, &archived{"siafund", e.StateElement, elems.Siafund(e), elems.Siafund(e), true})
+		}
+	}
+	for _, d := range au.FileContractElementDiffs() {
+		if d.Created || !(d.Resolved || d.Revision != nil) {
+			continue
+		}
+		e := d.FileContractElement.Copy()
+		after := e.FileContract
+		if d.Revision != nil {
+			after = *d.Revision
+		}
+		out = append(out, &archived{"filecontract", e.StateElement, elems.FileContract(e.ID, e.FileContract), elems.FileContract(e.ID, after), d.Resolved})
+	}
+	for _, d := range au.V2FileContractElementDiffs() {
+		if d.Created || !(d.Resolution != nil || d.Revision != nil) {
+			continue
+		}
+		e := d.V2FileContractElement.Copy()
+		after := e.V2FileContract
+		if d.Revision != nil {
+			after = *d.Revision
+		}
+		out = append(out, &archived{"v2filecontract", e.StateElement, elems.V2FileContract(e.ID, e.V2FileContract), elems.V2FileContract(e.ID, after), d.Resolution != nil})
+	}
+	return
 }
 
 func run(b *harness.B) {
@@ -203,6 +254,22 @@ func run(b *harness.B) {
 			a := &applied{snapBefore: pendingSnap, stateEnc: enc(ev.Next), block: ev.Block, supp: ev.Supp, kinds: ev.Kinds, id: ev.Next.Index.ID}
 			a.auJSON, _ = json.Marshal(ev.AU)
 			a.sc, a.sf, a.fc, a.v2 = records(ev.AU)
+			// the consumer's archive of updated-in-place elements: the copies of earlier blocks follow the chain, the
+			// copies of this block start from the proofs this update reported
+			for k := len(stack) - 1; k >= 0 && k >= len(stack)-archiveDepth; k-- {
+				for _, x := range stack[k].arch {
+					ev.AU.UpdateElementProof(&x.se)
+				}
+			}
+			if len(stack) >= archiveDepth {
+				stack[len(stack)-archiveDepth].arch = nil
+			}
+			a.arch = archive(ev.AU)
+			for _, x := range a.arch {
+				if !elems.Member(ev.Next.Elements, x.after, x.se, x.spentAfter) {
+					b.Violate("C06/archive/reported-element-does-not-verify/"+x.kind, "an element the apply update reports as updated in place does not verify in its new form against the new state", map[string]any{"height": ev.Next.Index.Height, "kinds": ev.Kinds, "leaf": x.se.LeafIndex})
+				}
+			}
 			stack = append(stack, a)
 			b.Eval(1)
 			b.Count("blocks_applied", 1)
@@ -281,6 +348,33 @@ func run(b *harness.B) {
 					}
 					if n > 1 {
 						b.Count("attestation_lists_compared_with_two_or_more", 1)
+					}
+				}
+			}
+			// 2b. the consumer's own copies of the elements this block updated in place, walked back with
+			// RevertUpdate.UpdateElementProof, prove the elements as they were before the block; the copies of deeper
+			// blocks stay proofs of the updated form
+			for _, x := range a.arch {
+				ev.RU.UpdateElementProof(&x.se)
+				b.Count("archived_copies_walked_back", 1)
+				if !elems.Member(ev.Prev.Elements, x.before, x.se, false) {
+					b.Violate("C06/archive/own-copy-not-restored/"+x.kind, fmt.Sprintf("a consumer's copy of leaf %d, updated in place by the reverted block and walked back with RevertUpdate.UpdateElementProof, does not prove the element as it was before the block (%d elements updated in place by the block)", x.se.LeafIndex, len(a.arch)), wit)
+					break
+				}
+			}
+			if len(a.arch) > 1 {
+				b.Count("reverted_blocks_with_two_or_more_archived_copies", 1)
+			}
+			for k := len(stack) - 1; k >= 0 && k >= len(stack)-archiveDepth; k-- {
+				for _, x := range stack[k].arch {
+					ev.RU.UpdateElementProof(&x.se)
+					if !x.spentAfter {
+						continue // a revised contract may have been updated again since
+					}
+					b.Count("archived_copies_of_deeper_blocks_followed", 1)
+					if !elems.Member(ev.Prev.Elements, x.after, x.se, x.spentAfter) {
+						b.Violate("C06/archive/deeper-copy-broken-by-revert/"+x.kind, fmt.Sprintf("a consumer's copy of leaf %d (updated in place %d blocks below the reverted one) no longer verifies after RevertUpdate.UpdateElementProof", x.se.LeafIndex, len(stack)-k), wit)
+						break
 					}
 				}
 			}
@@ -403,6 +497,6 @@ func main() {
 		Run:         run,
 		MinEvals:    1000,
 		MinDistinct: 100,
-		Require:     []string{"blocks_applied", "blocks_reverted", "store_snapshots_compared", "diff_lists_compared_nonempty", "reapplies_compared", "competing_branch_roundtrips", "elements_verified_after_revert"},
+		Require:     []string{"blocks_applied", "blocks_reverted", "store_snapshots_compared", "diff_lists_compared_nonempty", "reapplies_compared", "competing_branch_roundtrips", "elements_verified_after_revert", "archived_copies_walked_back", "reverted_blocks_with_two_or_more_archived_copies", "archived_copies_of_deeper_blocks_followed"},
 	})
 }
